@@ -58,6 +58,12 @@ impl GlobalUsageAnalysis {
 
     fn recurse(mut self) -> GlobalUsageAnalysis {
         let keys = self.0.keys().cloned().collect::<Vec<_>>();
+        #[cfg(rssl_verif)]
+        rssl_text::verif::probe(
+            "ir::usage_analysis::keys",
+            keys.len(),
+            rssl_text::verif::order_sig(keys.iter()),
+        );
         loop {
             let mut modified = false;
 
